@@ -1,3 +1,4 @@
+use crate::checks::repeated_bool::is_pure;
 use crate::diagnostics::{Autofix, Diagnostic, Severity};
 use crate::env::Env;
 use crate::parser::ast::{Block, Expression, Expression_, LetDestination, ToplevelItem};
@@ -45,10 +46,16 @@ impl<'a> UnusedLiteralVisitor<'a> {
         );
 
         if is_literal {
-            let fix = Autofix {
-                description: "Remove unused value".to_owned(),
-                position: self.get_line_position(&expr.position),
-                new_text: String::new(),
+            // Removing `[f(), g()]` would also remove the calls, so only
+            // offer the fix when evaluating the literal has no effects.
+            let fixes = if is_pure(expr) {
+                vec![Autofix {
+                    description: "Remove unused value".to_owned(),
+                    position: self.get_line_position(&expr.position),
+                    new_text: String::new(),
+                }]
+            } else {
+                vec![]
             };
 
             self.unused_literals.push(Diagnostic {
@@ -56,7 +63,7 @@ impl<'a> UnusedLiteralVisitor<'a> {
                 severity: Severity::Warning,
                 message: ErrorMessage(vec![Text("Unused value.".to_owned())]),
                 position: expr.position.clone(),
-                fixes: vec![fix],
+                fixes,
             });
         }
     }
